@@ -501,6 +501,8 @@ struct ConnOp {
     steps: Vec<Step>,
 }
 enum Step {
+    /// `take`: `ConnectInfo::take_addrs()` - the addresses are handed out and the request is unresolved again
+    Take,
     Port(u16),
     Addr(Option<SocketAddr>),
     Addrs(Vec<SocketAddr>),
@@ -577,6 +579,8 @@ fn parse_conn_op(cx: &Ctx, ws: &[&str]) -> Option<ConnOp> {
             steps.push(Step::Addrs(v));
         } else if let Some(ip) = w.strip_prefix("local=") {
             steps.push(Step::Local(ip.parse().ok()?));
+        } else if *w == "take" {
+            steps.push(Step::Take);
         } else {
             return None;
         }
@@ -584,15 +588,21 @@ fn parse_conn_op(cx: &Ctx, ws: &[&str]) -> Option<ConnOp> {
     Some(ConnOp { via, path, from, res, dflt_ips, host, with, steps })
 }
 
-fn build_info(op: &ConnOp) -> (ConnectInfo<HostReq>, Option<IpAddr>) {
+/// (request, local bind address, what each `take_addrs()` handed out)
+fn build_info(op: &ConnOp) -> (ConnectInfo<HostReq>, Option<IpAddr>, Vec<Vec<SocketAddr>>) {
     let mut ci = match op.with {
         Some(a) => ConnectInfo::with_addr(op.host.clone(), a),
         None if op.from => ConnectInfo::from(op.host.clone()),
         None => ConnectInfo::new(op.host.clone()),
     };
     let mut local = None;
+    let mut taken = vec![];
     for s in &op.steps {
         ci = match s {
+            Step::Take => {
+                taken.push(ci.take_addrs().collect::<Vec<_>>());
+                ci
+            }
             Step::Port(p) => ci.set_port(*p),
             Step::Addr(a) => ci.set_addr(*a),
             Step::Addrs(v) => ci.set_addrs(v.clone()),
@@ -602,7 +612,7 @@ fn build_info(op: &ConnOp) -> (ConnectInfo<HostReq>, Option<IpAddr>) {
             }
         };
     }
-    (ci, local)
+    (ci, local, taken)
 }
 
 fn is_ip_literal(s: &str) -> Option<IpAddr> {
@@ -636,7 +646,7 @@ fn run_conn_op_attempt(rt: &tokio::runtime::Runtime, cx: &Ctx, op: &ConnOp, rep:
         None => Resolver::default(),
         Some(_) => Resolver::custom(script_resolver()),
     };
-    let (ci, local) = build_info(op);
+    let (ci, local, taken) = build_info(op);
     // facts about the request (inputs of the oracle), computed from the op itself - not read back from the
     // crate: the hostname is the part of a host string before its first `:`, the port is the request's own
     // port (the part after the first `:` if it is a u16; a custom `Host`'s `port()`) and only without one the
@@ -645,18 +655,24 @@ fn run_conn_op_attempt(rt: &tokio::runtime::Runtime, cx: &Ctx, op: &ConnOp, rep:
     let field_port = op.steps.iter().rev().find_map(|s| if let Step::Port(p) = s { Some(*p) } else { None }).unwrap_or(0);
     let eff_port = own_port.unwrap_or(field_port);
     let literal = is_ip_literal(&hostname);
+    // the addresses the request carries at connect time: what was set last, nothing once they were taken
+    let mut want_taken: Vec<Vec<SocketAddr>> = vec![];
     let preset: Vec<SocketAddr> = {
         let mut cur: Vec<SocketAddr> = op.with.into_iter().collect();
         for s in &op.steps {
             match s {
                 Step::Addr(a) => cur = a.iter().copied().collect(),
                 Step::Addrs(v) => cur = v.clone(),
+                Step::Take => want_taken.push(std::mem::take(&mut cur)),
                 _ => {}
             }
         }
         cur
     };
     let mut pre_fails: Vec<String> = vec![];
+    if taken != want_taken {
+        pre_fails.push(format!("take_addrs handed out {taken:?}, expected {want_taken:?}"));
+    }
     if ci.hostname() != hostname || ci.port() != eff_port {
         pre_fails.push(format!(
             "ConnectInfo reports hostname {:?} port {}, expected {:?} port {} (the request's own port {:?} wins over the set_port value {})",
@@ -908,7 +924,12 @@ fn run_conn_op_attempt(rt: &tokio::runtime::Runtime, cx: &Ctx, op: &ConnOp, rep:
     for m in fails {
         rep.t3("C19", &m);
     }
-    format!("lk={lk} res={res} acc={}", fmt_acc(&acc))
+    let tk = if taken.is_empty() {
+        String::new()
+    } else {
+        format!(" taken={}", taken.iter().map(|l| format!("[{}]", l.iter().map(|a| cx.canon(a)).collect::<Vec<_>>().join(";"))).collect::<Vec<_>>().join("|"))
+    };
+    format!("lk={lk} res={res} acc={}{tk}", fmt_acc(&acc))
 }
 
 
@@ -3164,6 +3185,32 @@ fn gen_c19(a: &Args, w: &mut dyn Write) {
         writeln!(w, "{bad}").unwrap();
     }
     writeln!(w, "conn resolve:k {dflt} s=localhost").unwrap();
+    // (B) the ConnectInfo builder surface in every order: set_addr(Some / None), set_addrs (0, 1, several), with_addr,
+    //     set_port before / after, `take` (= take_addrs: the addresses are handed out, the request is unresolved again)
+    //     - pre-set addresses are used iff present at connect time, otherwise IP literal / resolver / Unresolved
+    let pieces = ["addr=e0", "addrs=e2;e0", "addrs=e1", "addrs=", "addr=none", "take", "port=@1", "with=e0"];
+    let mut bi = 0usize;
+    for a in 0..pieces.len() {
+        writeln!(w, "case builder-{a} kind=conn eps=L4,L4,C4").unwrap();
+        for b in 0..pieces.len() - 1 {
+            for c in [5usize, 0, 3, 6] {
+                // (`with=` can only come first)
+                let mut seq: Vec<&str> = vec![pieces[a], pieces[b], pieces[c]];
+                if a != pieces.len() - 1 {
+                    seq.retain(|x| !x.starts_with("with="));
+                }
+                bi += 1;
+                let steps = seq.join(" ");
+                let host = ["s=build.test:80", "s=127.0.0.1:@1", "h=build.test,-", "t=build.test"][bi % 4];
+                writeln!(w, "conn {} ok=e1;e0 {host} {steps}", via("full", false)).unwrap();
+                match bi % 3 {
+                    0 => writeln!(w, "conn {} err {host} {steps}", via("tcp", false)).unwrap(),
+                    1 => writeln!(w, "conn {} ok= {host} {steps}", via("resolve", false)).unwrap(),
+                    _ => writeln!(w, "conn {} err {host} {steps} take", via("full", false)).unwrap(),
+                }
+            }
+        }
+    }
     // (U) `http::Uri` requests (feature `uri`; `u=` http 1, `v=` http 0.2): every scheme of connect/uri.rs and
     //     two unlisted ones, with / without an explicit port, name and IP-literal hosts, authority form, path-only
     //     form, a bracketed IPv6 host.  The well-known ports themselves are never dialled (a developer machine
@@ -3327,6 +3374,7 @@ fn gen_c19(a: &Args, w: &mut dyn Write) {
                     1 => steps.push_str(&format!(" addr={}", if rng.chance(1, 4) { "none".to_string() } else { addr(&mut rng) })),
                     2 => steps.push_str(&format!(" addrs={}", addrs(&mut rng, 4))),
                     3 => steps.push_str(*rng.pick(&[" local=127.0.0.1", " local=::1", " local=127.0.0.2", " local=198.51.100.7"])),
+                    4 if rng.chance(1, 2) => steps.push_str(" take"),
                     _ => {}
                 }
             }
